@@ -1286,6 +1286,21 @@ class Evaluator:
                 res = self.distinct_on(res, res, s["distinct_on"], s["order"], outer)
                 rel_for_keys = res
         # ORDER BY / LIMIT / OFFSET: results are compared as sets of rows; a LIMIT is honoured only when it cannot cut
+        if getattr(self.db, "exact_limit", False) and (s["limit"] is not None or s.get("offset") is not None) and s["order"]:
+            # exact LIMIT / OFFSET with ORDER BY: a row is kept iff offset <= (number of present rows sorting strictly before it) < offset + limit
+            # (ties are broken arbitrarily by SQL; callers use this on unique order keys or state the tie rule)
+            n = len(res.rows)
+            lim = self.ev(s["limit"], Env(outer=outer)).z if s["limit"] is not None else None
+            off = self.ev(s["offset"], Env(outer=outer)).z if s.get("offset") is not None else z3.IntVal(0)
+            ok = [self.order_key(s["order"], rel_for_keys, rel_for_keys.rows[i], outer) for i in range(n)]
+            kept = []
+            for i in range(n):
+                rank = z3.Sum([z3.If(z3.And(res.rows[j].guard, self.before(ok[j], ok[i])), 1, 0) for j in range(n) if j != i]) if n > 1 else z3.IntVal(0)
+                cond = rank >= off
+                if lim is not None:
+                    cond = z3.And(cond, rank < off + lim)
+                kept.append(Row(z3.And(res.rows[i].guard, cond), res.rows[i].vals))
+            return Rel(res.cols, kept)
         if s["limit"] is not None:
             lim = self.ev(s["limit"], Env(outer=outer))
             n = len(res.rows)
